@@ -269,6 +269,8 @@ def cbmc_cmd(job, hints_path, witness=False):
     cmd = ["cbmc", "-I", HARNESS, '-DCAT_C_PATH="%s"' % CAT_C] + dflags(job.defines)
     if witness:
         cmd.append("-DWITNESS_MODE")
+    elif job.solver == "kissat":
+        cmd.append("-DNO_WITNESS")
     if hints_path:
         cmd.append('-DHINTS_FILE="%s"' % hints_path)
     cmd.append(os.path.join(HARNESS, job.harness))
@@ -548,9 +550,12 @@ def run_job(job, workdir, prop, seed=0, log=None):
             R[k] = max(R[k], pr[k])
         R["solver_s"] += pr["solver_s"]
         R["symex_s"] += pr["symex_s"]
-        fails = [p for p in pr["props"] if p["status"] == "FAILURE"]
-        R["obligations"] = len(pr["props"])
-        R["proved"] = len([p for p in pr["props"] if p["status"] == "SUCCESS"])
+        wprops = [p for p in pr["props"] if p["desc"].startswith("witness:")]
+        oprops = [p for p in pr["props"] if not p["desc"].startswith("witness:")]
+        fails = [p for p in oprops if p["status"] == "FAILURE"]
+        R["obligations"] = len(oprops)
+        R["proved"] = len([p for p in oprops if p["status"] == "SUCCESS"])
+        R["witness"] = dict((p["desc"][8:], p["status"] == "FAILURE") for p in wprops)
         infra = [p for p in fails if INFRA_PAT.search(p["desc"])]
         real = [p for p in fails if not INFRA_PAT.search(p["desc"])]
         hint_fail = [p for p in infra if "hint-incomplete" in p["desc"]]
@@ -627,33 +632,24 @@ def run_job(job, workdir, prop, seed=0, log=None):
     if job.hinted:
         R["hint_pairs"] = sum(len(v) for v in hints.values())
         R["hint_steps"] = len(hints)
-    # witness twin
-    if final == "proved" and job.witness:
+    # vacuity: the witness goals are asserted (negated) in the same run and must have come back FAILED (= reachable);
+    # jobs on the external (non-incremental) solver run them as a separate -DWITNESS_MODE twin instead
+    if final == "proved" and job.witness and job.solver == "kissat":
         cmd = cbmc_cmd(job, hints_path, witness=True)
         rc, out, err, dt, to = run_to(cmd, job.timeout, mem_gb=job.mem_gb, cwd=workdir)
         R["cbmc_runs"] += 1
         R["cbmc_wall_s"] += dt
-        if to:
+        prw = parse_cbmc(out) if not to else {"props": [], "status": None, "messages": []}
+        if to or prw["status"] in (None, "parse-error"):
             R["status"] = "inconclusive"
-            R["reason"] = "witness twin timeout"
-        else:
-            pr = parse_cbmc(out)
-            ws = {}
-            if pr["status"] in (None, "parse-error"):
-                R["status"] = "inconclusive"
-                R["reason"] = "witness twin gave no verdict (rc=%s) %s" % (rc, "; ".join(pr["messages"])[:200])
-                R["witness"] = {}
-                job_required = []
-            for p in pr["props"]:
-                if p["desc"].startswith("witness:"):
-                    ws[p["desc"][8:]] = (p["status"] == "FAILURE")
-            R["witness"] = ws
-            missing = [k for k in job.required_witness if not ws.get(k)]
-            if pr["status"] in (None, "parse-error"):
-                pass
-            elif not ws or missing:
-                R["status"] = "inconclusive"
-                R["reason"] = "vacuity: witness not reachable: " + ",".join(missing)
+            R["reason"] = "witness twin gave no verdict (timeout=%s rc=%s)" % (to, rc)
+        R["witness"] = dict((p["desc"][8:], p["status"] == "FAILURE") for p in prw["props"] if p["desc"].startswith("witness:"))
+    if final == "proved" and job.witness and R["status"] != "inconclusive":
+        ws = R.get("witness") or {}
+        missing = [k for k in job.required_witness if not ws.get(k)]
+        if missing:
+            R["status"] = "inconclusive"
+            R["reason"] = "vacuity: witness not reachable: " + ",".join(missing)
     if final == "proved" and R["status"] == "proved":
         try:
             R["functions"] = list_functions(job, workdir, hints_path)
